@@ -1207,7 +1207,9 @@ func (r *run) l1(states []*assetState) {
 			r.numberRun(as, "", n0, L)
 		}
 		// request histories on the one server instance
-		variants := []string{"eccp_cbcs/", "eccp_cenc/", "ato_1/chunkdur_0.5/", "segtimeline_1/", "segtimelinenr_1/"}
+		// low-latency variant: availabilityTimeOffset of half a segment (chunked mode needs 0 <= ato < segment duration)
+		llVariant := fmt.Sprintf("ato_%g/chunkdur_%g/", float64(segMS)/2000, float64(segMS)/4000)
+		variants := []string{"eccp_cbcs/", "eccp_cenc/", llVariant, "segtimeline_1/", "segtimelinenr_1/"}
 		nHist := 2
 		if thorough {
 			nHist = 12
